@@ -1175,7 +1175,9 @@ class StubsStringGenerator:
 
         # If we found nothing, we try to search it through all classes
         for class_ in self.api.classes:
-            if class_.endswith(class_qname) or (
+            # (the qualified name may lack leading parts, but it ends at a path segment: "argparse/_Container" is not
+            # "pkg/xargparse/_Container")
+            if class_.endswith(f"/{class_qname}") or (
                 class_.startswith(f"{class_path}/") and class_.endswith(f"/{class_name}")
             ):
                 return self.api.classes[class_]
